@@ -2,6 +2,7 @@ import Crd.Props.C06
 import Crd.Props.C02
 import Crd.Model.Raw
 import Crd.Spec.SmfStrict
+import Crd.Lemmas.Deltas
 
 /-!
 # C08 — every file written is a well-formed Standard MIDI File
@@ -175,6 +176,27 @@ theorem header_bytes (tpq : Nat) (tracks : List Track) (bytes : Bytes) (h : smfE
       simp [h1, List.range, List.range.loop, hmin, Nat.mod_eq_of_lt hn, h256, ht2]
 
 theorem ticks_per_quarter : ticksPerQuarter = 960 := by decide
+
+
+/-- **valid variable-length deltas**: every delta time of every track is at most 0x0FFFFFFF, is written in at most four
+bytes, and the strict reader reads exactly it back (gomidi's encoder against the specification's decoder, for every
+value that can occur) -/
+theorem delta_times_fit (f : WriteFlags) (is : List Instance) (tracks : List Track) (h : cmdWriteTracks f is = .ok tracks) :
+    ∀ t ∈ tracks, ∀ x ∈ t.ops, x.1 ≤ 0x0FFFFFFF ∧ ∀ rest, Crd.Spec.readVlq (vlq x.1 ++ rest) = some (x.1, rest) :=
+  deltas_fit f is tracks h
+
+/-- a piece longer than any delta time can span is refused (D22 fix), so no malformed delta is ever written -/
+theorem too_long_refused (f : WriteFlags) (is : List Instance) (d : Dict) (N : Nat) (is' : List Instance)
+    (hp : prepareWrite f is = .ok (d, N, is')) (hlong : pieceTicks goTicks is' > 0x0FFFFFFF) :
+    ∃ e, cmdWriteTracks f is = .error e := by
+  unfold cmdWriteTracks
+  simp only [hp, bind, Except.bind]
+  cases hw : playWrite d is' with
+  | error e => exact ⟨e, rfl⟩
+  | ok calls =>
+    have : pieceTicks goTicks is' > maxTicks := hlong
+    simp only [this, if_true]
+    exact ⟨_, rfl⟩
 
 /-! non-vacuity -/
 example : ((cmdWrite {} [] [{ chord := some ⟨some "1", "m7", none⟩, values := ["1"] }]).toOption.map (·.take 22)) =
